@@ -74,7 +74,19 @@ type scalarForm struct {
 // 1, 2, 3 and 8 (thorough: 1..8) size bytes (zero padded where the claim is smaller), each claiming n-1 (one byte too long),
 // n, and n+1 (truncated) bytes; plus "no header" for a single byte < 0x80.
 func scalarForms(pl []byte) []scalarForm {
-	n := len(pl)
+	out := headerForms(len(pl), false)
+	if len(pl) == 1 && pl[0] < 0x80 {
+		out = append(out, scalarForm{[]byte{}, "bare-byte"})
+	}
+	return out
+}
+
+// headerForms: every string (list) header for a payload of n bytes, see scalarForms.
+func headerForms(n int, list bool) []scalarForm {
+	short, long := byte(0x80), byte(0xb7)
+	if list {
+		short, long = 0xc0, 0xf7
+	}
 	var out []scalarForm
 	for _, d := range []int{0, -1, +1} {
 		claim := n + d
@@ -83,7 +95,7 @@ func scalarForms(pl []byte) []scalarForm {
 		}
 		dn := [3]string{"claim-1", "", "claim+1"}[d+1]
 		if claim < 56 {
-			out = append(out, scalarForm{[]byte{0x80 + byte(claim)}, "short" + dn})
+			out = append(out, scalarForm{[]byte{short + byte(claim)}, "short" + dn})
 		}
 		for _, k := range []int{1, 2, 3, 4, 5, 6, 7, 8} {
 			if !scalarThorough && k > 3 && k < 8 {
@@ -93,15 +105,12 @@ func scalarForms(pl []byte) []scalarForm {
 				continue
 			}
 			h := make([]byte, 1+k)
-			h[0] = 0xb7 + byte(k)
+			h[0] = long + byte(k)
 			for i, x := k, claim; i >= 1; i, x = i-1, x>>8 {
 				h[i] = byte(x)
 			}
 			out = append(out, scalarForm{h, fmt.Sprintf("long%d%s", k, dn)})
 		}
-	}
-	if n == 1 && pl[0] < 0x80 {
-		out = append(out, scalarForm{[]byte{}, "bare-byte"})
 	}
 	return out
 }
